@@ -197,10 +197,14 @@ pub struct SwapRun {
     pub generations: u16,
     pub swapper_pause_us: u16,
     pub signed_pct: u8,
+    /// catalogs and key sets are replaced by two different threads instead of one
+    #[serde(default)]
+    pub two_swappers: bool,
 }
 
 fn swap_run() -> impl Strategy<Value = SwapRun> {
-    (2u8..=8, 50u16..400, 3u16..200, prop_oneof![Just(0u16), 1u16..200], 0u8..=100).prop_map(|(queriers, queries_each, generations, swapper_pause_us, signed_pct)| SwapRun { queriers, queries_each, generations, swapper_pause_us, signed_pct })
+    (2u8..=8, 50u16..400, 3u16..200, prop_oneof![Just(0u16), 1u16..200], 0u8..=100, any::<bool>())
+        .prop_map(|(queriers, queries_each, generations, swapper_pause_us, signed_pct, two_swappers)| SwapRun { queriers, queries_each, generations, swapper_pause_us, signed_pct, two_swappers })
 }
 
 /// Every record of generation g carries g: last octet(s) of addresses, TTLs, SOA serial.
@@ -300,7 +304,8 @@ pub fn oracle_c32(w: &SwapRun, st: &mut Stats) -> Verdict {
     let overlapped = Arc::new(AtomicU64::new(0));
     let checked = Arc::new(AtomicU64::new(0));
 
-    let swapper = {
+    // which = 0: both replacements on one thread; 1: catalogs only; 2: key sets only
+    let spawn_swapper = |which: u8| {
         let (server, cats, cs, ci, ks, ki, done) = (server.clone(), cats.clone(), cat_started.clone(), cat_installed.clone(), key_started.clone(), key_installed.clone(), done.clone());
         let (gens, pause) = (w.generations as u64, w.swapper_pause_us);
         std::thread::spawn(move || {
@@ -308,12 +313,16 @@ pub fn oracle_c32(w: &SwapRun, st: &mut Stats) -> Verdict {
                 if done.load(Ordering::SeqCst) {
                     break;
                 }
-                cs.store(g, Ordering::SeqCst);
-                server.set_catalog(cats[g as usize].clone());
-                ci.store(g, Ordering::SeqCst);
-                ks.store(g, Ordering::SeqCst);
-                server.set_tsig_keys(keys(g as u32));
-                ki.store(g, Ordering::SeqCst);
+                if which != 2 {
+                    cs.store(g, Ordering::SeqCst);
+                    server.set_catalog(cats[g as usize].clone());
+                    ci.store(g, Ordering::SeqCst);
+                }
+                if which != 1 {
+                    ks.store(g, Ordering::SeqCst);
+                    server.set_tsig_keys(keys(g as u32));
+                    ki.store(g, Ordering::SeqCst);
+                }
                 if pause > 0 {
                     std::thread::sleep(Duration::from_micros(pause as u64));
                 } else {
@@ -322,6 +331,7 @@ pub fn oracle_c32(w: &SwapRun, st: &mut Stats) -> Verdict {
             }
         })
     };
+    let swappers = if w.two_swappers { vec![spawn_swapper(1), spawn_swapper(2)] } else { vec![spawn_swapper(0)] };
     let mut handles = Vec::new();
     for qi in 0..w.queriers {
         let (server, cs, ci, ks, ki, failure, overlapped, checked) = (server.clone(), cat_started.clone(), cat_installed.clone(), key_started.clone(), key_installed.clone(), failure.clone(), overlapped.clone(), checked.clone());
@@ -430,11 +440,44 @@ pub fn oracle_c32(w: &SwapRun, st: &mut Stats) -> Verdict {
         panicked |= h.join().is_err();
     }
     done.store(true, Ordering::SeqCst);
-    panicked |= swapper.join().is_err();
+    for h in swappers {
+        panicked |= h.join().is_err();
+    }
     ensure!(!panicked, "panic-in-thread", "a thread panicked during {w:?}");
     if let Some((sig, detail)) = failure.lock().unwrap().take() {
         fail!(sig, "{detail}");
     }
+    // every replacement has returned: the newest catalog and the newest key set must be in use
+    {
+        let (cat_final, key_final) = (cat_installed.load(Ordering::SeqCst), key_installed.load(Ordering::SeqCst));
+        let mut buf = vec![0u8; 65535];
+        let src = IpAddr::V4(Ipv4Addr::new(192, 0, 2, 99));
+        let mut b = Builder::new(0x32ff, 0);
+        b.question(&n(&[b"g", b"test"]), mr::T_NS, 1);
+        b.rr(3, &MName::root(), mr::T_OPT, 4096, 0, &[]);
+        let now = std::time::SystemTime::now().duration_since(std::time::UNIX_EPOCH).map(|d| d.as_secs()).unwrap_or(0);
+        let (signed, _) = sign(&b.buf, &secret(key_final as u32), now);
+        for (request, is_signed) in [(&b.buf, false), (&signed, true)] {
+            let len = match server.handle_message(request, ReceivedInfo::new(src, Transport::Tcp), &mut buf) {
+                Response::Single(l) => l,
+                Response::None => fail!("no-response", "the final query got no response"),
+            };
+            let d = match vmodel::wire::decode_message_opts(&buf[..len], true) {
+                Ok(d) => d,
+                Err(e) => fail!("response-does-not-decode", "{e:?}"),
+            };
+            let ctx = format!("final query after every replacement returned (catalog generation {cat_final}, key set {key_final}, two swapper threads: {}); response {d:?}", w.two_swappers);
+            if is_signed {
+                let verified = d.tsig().and_then(|t| mr::parse_tsig(&t.rdata)).map_or(false, |rd| rd.error == 0) && d.header.rcode != 9;
+                ensure!(verified, "valid-signature-rejected", "{ctx}");
+            }
+            let mut seen = generations_in(&d).map_err(|e| crate::fw::Fail::new("unexpected-record", format!("{e}; {ctx}")))?;
+            seen.sort_unstable();
+            seen.dedup();
+            ensure!(seen == vec![cat_final as u32], "stale-catalog-after-set_catalog-returned", "markers {seen:?}; {ctx}");
+        }
+    }
+    st.class(if w.two_swappers { "catalogs-and-key-sets-replaced-by-two-threads" } else { "catalogs-and-key-sets-replaced-by-one-thread" });
     let c = checked.load(Ordering::SeqCst);
     let o = overlapped.load(Ordering::SeqCst);
     st.evals(c);
